@@ -83,6 +83,18 @@ Definition scale1 (xs : list Qc) : Qc := qsum (map qabs xs).
 Definition scale2 (xs : list Qc) : Qc := qsumsq xs.
 Definition scale_max (xs : list Qc) : Qc := fold_right qmax 0%Qc (map qabs xs).
 
+(* The variance (compared as StdDev^2, both regimes).  Go computes it in a second pass with the
+   computed mean, SUM (x - mean)^2 / n, which is accurate RELATIVE to the variance up to the squared
+   error of the mean (Props/C08Float.v: C08_float_sum_of_diffs_error, C08_float_deviation_shift):
+       |StdDev^2 - Var| <= 1e-9 * Var + 5 * (n * u)^2 * max|x|^2,    u = 2^-53, n <= 10^6
+   (C08_tolerance_sound_variance_qc proves exactly this boolean for the two-pass algorithm).  A scale of
+   max|x|^2 alone would accept the cancelling one-pass formula SUM x^2 - mean * SUM x. *)
+Definition u53 : Qc := Q2Qc (1 # 9007199254740992).
+Definition var_tol (n : nat) (smax var : Qc) : Qc :=
+  (tol * var + Qc_of_Z 5 * ((qnat n * u53) * (qnat n * u53)) * (smax * smax))%Qc.
+Definition var_close (n : nat) (smax var obs2 : Qc) : bool :=
+  Qcleb (qabs (var - obs2)) (var_tol n smax var).
+
 Definition kind_of (name : str) : N :=
   if has_prefix (bs "count_") name then 0%N
   else if has_prefix (bs "upper_") name || has_prefix (bs "lower_") name then 1%N
@@ -172,7 +184,7 @@ Definition check_single (c : c08single) : bool :=
         && same (t_min t) (o_min o)
         && same (t_max t) (o_max o)
         && fin (o_stddev o)
-        && close (smax * smax) (t_var t) (Qc_of_bits (o_stddev o) * Qc_of_bits (o_stddev o))
+        && var_close n smax (t_var t) (Qc_of_bits (o_stddev o) * Qc_of_bits (o_stddev o))
         && cmp ex s1 (t_sum t) (o_sum o)
         && cmp ex s2 (t_sumsq t) (o_sumsq o)
         && forallb fin (o_values o)
